@@ -152,6 +152,8 @@ def merge(results):
         m["nontrivial"].update(r["nontrivial"])
         m["violations"].extend(r["violations"])
         m["dropped"] += r.get("violations_dropped", 0)
+        for k, v in r.get("findings_dropped", {}).items():
+            m.setdefault("findings_dropped", collections.Counter())[k] += v
         m["errors"].extend(r["errors"])
         for k, v in r["sets"].items():
             m["sets"][k].update(v)
@@ -300,7 +302,9 @@ def main(argv=None):
         anchors_reached=dict(m["anchors"]),
         anchors_not_located=sorted(m["anchors_unknown"]),
         shards=n_shards, shards_completed=len(results),
-        known_findings_seen={k: n for k, (e, n, v) in known.items()},
+        known_findings_seen={
+            k: n + m.get("findings_dropped", {}).get(k, 0)
+            for k, (e, n, v) in known.items()},
         violation_kinds=sorted({v["kind"] for v in violations}),
         inconclusive_reasons=[s[:500] for s in inconclusive],
         verdict=("violated" if violations else
@@ -325,7 +329,8 @@ def main(argv=None):
         print("  anchors : %s" % dict(m["anchors"]))
     for k, (e, n, v) in sorted(known.items()):
         print("KNOWN-FINDING: property=%s %s [key=%s, seen %d times]" %
-              (prop_id, e["what"], k, n))
+              (prop_id, e["what"], k,
+               n + m.get("findings_dropped", {}).get(k, 0)))
     if violations:
         for v, p in zip(violations, replay_paths):
             print("  violation %s: %s" % (v["kind"], str(v["msg"])[:600]))
